@@ -142,7 +142,70 @@ def check(rep, model, tier):
     rep.instances[before:] = [i for i in rep.instances[before:] if '3-D' in i['instance'] or 'signatures agree' in i['instance']]
     rep.rule('ARG-NAME', 'BycycleGroup.fit binds its settings to compute_features_3d by name (shared with C14)')
     c19.dtable(rep, model, 'quick')
+    epoch_grid(rep, model)
     rep.floor('rule instances', len(rep.instances), 30)
+
+
+def epoch_grid(rep, model):
+    """axis 0 / 1 and BycycleGroup.fit get their second dimension from epoch_df and wrap every (table, signal) pair with Bycycle.load: the grid is n0 x n1 only
+    if the number of epoch tables does not depend on the data, and fit returns only if load accepts every table epoch_df can produce"""
+    rep.rule('EPOCH-COUNT', 'the number of tables epoch_df returns is a function of (sig_len, epoch_len) alone: no cycle-table term occurs in the extent of the returned list '
+                            '(an epoch in which no cycle ends still yields its - empty - table, so entry [i][j] stays at position j)')
+    rep.rule('LOAD-ACCEPTS', 'Bycycle.load, which BycycleGroup.fit applies to every (table, signal) pair, rejects no table that epoch_df produces: the closing extremum of '
+                             'the last cycle of an epoch may equal the epoch length (epoch_df keeps cycles with first < sample_next <= last), so a bound check on the '
+                             'sample columns must not fire at equality')
+    f = model.find('epoch_df')
+    site = f'{f.path}:{f.node.lineno} epoch_df'
+    for centre in ('peak', 'trough'):
+        tab = E.abstract_table('F', list(E.SAMPLE_COLS[centre].values()) + ['period', 'is_burst'])
+        r, ctx = E.run(model, f.qual, {f.params[0]: tab, f.params[1]: ('param', 'sig_len'), f.params[2]: ('param', 'epoch_len')})
+        if r is None:
+            rep.violation('EPOCH-COUNT', centre, site, expected='a list of tables', found='no value is returned')
+            continue
+        try:
+            n = T.length(r)
+        except Exception:
+            n = None
+        data = sorted({T.show(x) for x in T.walk(n) if x[0] in ('col', 'nrows') or x == tab}) if n is not None else []
+        cond = r[0] == 'filtermap'
+        if n is None:
+            rep.ok('EPOCH-COUNT', centre, site, found='extent of the returned list not in a recognised form: not decided here (see C13 PARTITION)', nontrivial=False)
+        elif data or cond:
+            rep.violation('EPOCH-COUNT', centre, site, expected='one table per epoch window, whatever the cycle table holds',
+                          found=('tables are appended conditionally' if cond else f'the extent {T.brief(n, 120)} depends on the cycle table ({data[:2]})') +
+                          ': epochs without a cycle vanish and later epochs move to earlier positions')
+        else:
+            rep.ok('EPOCH-COUNT', centre, site, found=f'extent {T.brief(n, 140)}')
+    from . import c14
+    ld = model.funcs.get(f'{c14.BY}.load')
+    if ld is None:
+        rep.unresolved('LOAD-ACCEPTS', 'Bycycle.load', '-', 'method not found')
+        return
+    lsite = f'{ld.path}:{ld.node.lineno} Bycycle.load'
+    ctx = c14.new_ctx(model, ())
+    o = E.make_object(ctx, model, c14.BY, c14.SETTINGS)
+    tab = E.abstract_table('F', list(E.SAMPLE_COLS['peak'].values()) + ['period', 'is_burst'])
+    sig = ('atom', 'SIG', 'arr')
+    ctx.raises.clear()
+    E.run(model, ld.qual, {'self': o, ld.params[1]: tab, ld.params[2]: sig, ld.params[3]: ('param', 'fs'), ld.params[4]: ('param', 'f_range')}, ctx=ctx)
+    n_bad = 0
+    for exc, guard, where, *_r in ctx.raises:
+        mentions = any(x[0] in ('col', 'nrows') or x == tab for x in T.walk(guard))
+        if not mentions:
+            continue
+        conj = list(guard[1]) if guard[0] == 'and' else [guard]
+        # max(samples) - len(sig) >= 0  fires at equality;  > 0 does not
+        at_equality = [c for c in conj if c[0] == 'cmp0' and c[1] == 'GtE' and c[2][0] == 'lin' and c[2][1] >= 0 and
+                       any(x[0] == 'len' and x[1] == sig for x, k in c[2][2] if k < 0) and any(k > 0 and any(y[0] == 'col' or y == tab for y in T.walk(x)) for x, k in c[2][2])]
+        if at_equality:
+            n_bad += 1
+            rep.violation('LOAD-ACCEPTS', f'{exc}@{where}', lsite, expected='tables whose largest sample index equals len(sig) are accepted (inclusive epoch end)',
+                          found=f'raises when {T.brief(guard, 160)}: BycycleGroup.fit fails for a cycle that ends exactly on an epoch boundary')
+        else:
+            rep.ok('LOAD-ACCEPTS', f'{exc}@{where}', lsite, found=f'a table-dependent rejection ({T.brief(guard, 100)}) that does not fire at sample == len(sig), or is not in a recognised form: '
+                                                                 'not decided here', nontrivial=False)
+    if not n_bad:
+        rep.ok('LOAD-ACCEPTS', 'Bycycle.load', lsite, found='no rejection of a table at sample == len(sig)')
 
 
 def transposed(res, pres):
